@@ -148,7 +148,7 @@ func (a *An) c16Emit() {
 	hasP := func(p string) string { return "(*policies).has(new(policies), " + p + ")" }
 	for _, spec := range []struct {
 		fn, kind string
-		h      func(string) string
+		h        func(string) string
 	}{{"(*Conversation).QueryMessage", "digits", has}, {"genWhitespaceTag", "tags", nil}} {
 		fn := a.MustFn(spec.fn)
 		if fn == nil {
